@@ -150,7 +150,8 @@ def entry_inputs(e, rng: common.Rng, thorough: bool) -> list[tuple]:
         elif name == "int32":
             cols.append(int_points(-2 ** 31, 2 ** 31 - 1, small=len(e.in_dts) >= 2 and not thorough))
         else:
-            cols.append(list(HALVES))
+            cols.append(list(HALVES) + ([Fraction(2 ** 31), Fraction(3 * 10 ** 9), Fraction(-3 * 10 ** 9),
+                                         Fraction(2 ** 33), Fraction(-2 ** 33)] if e.key == "f2i" else []))
     if len(cols) == 1:
         return [(a,) for a in cols[0]]
     if all(np.dtype(d).name in ("int8", "uint8") for d in e.in_dts) and len(cols) == 2:
@@ -176,6 +177,8 @@ def entry_inputs(e, rng: common.Rng, thorough: bool) -> list[tuple]:
 
 
 def in_domain(e, t: tuple) -> bool:
+    """Oracle domain (ORT on the real model vs eager JAX): every finite input on which eager JAX is
+    defined and ONNX Runtime does not bring the process down."""
     k = e.key
     dts = [np.dtype(d).name for d in e.in_dts]
     if k in ("div", "rem", "floor_divide", "mod") and dts[0].startswith("int"):
@@ -183,16 +186,25 @@ def in_domain(e, t: tuple) -> bool:
         if y == 0:
             return False            # ORT: integer division by zero (SIGFPE); JAX: -1 / x — undefined domain
         if x == -2 ** 31 and y == -1:
-            return False            # INT_MIN / -1 overflows (ORT crashes with SIGFPE); no-overflow hypothesis
+            return False            # INT_MIN / -1 overflows (ORT dies with SIGFPE)
     if k == "rem" and dts[0] == "float32":
-        # exact domain of the ℚ model: small dyadics (x/y is then exact in f32; ORT does not use an exact fmod)
-        return t[1] != 0 and all(Fraction(v).denominator <= 4 and abs(v) <= 100 for v in t)
+        return t[1] != 0
     if k == "select_n3":
         return 0 <= t[0] < 3        # lax.select_n: selector must index a case
+    return True
+
+
+def tie_domain(e, t: tuple) -> bool:
+    """Where the Lean model claims exactness (recipe / jaxSem are compared with ORT / JAX there)."""
+    k = e.key
+    dts = [np.dtype(d).name for d in e.in_dts]
+    if k == "rem" and dts[0] == "float32":
+        # small dyadics: x/y is then exact in f32 (ORT does not use an exact fmod)
+        return all(Fraction(v).denominator <= 4 and abs(v) <= 100 for v in t)
     if k == "f2i":
-        return -2 ** 31 <= int(t[0]) <= 2 ** 31 - 1 - 128  # truncation must fit int32 (and be an exact f32)
-    if k in ("clamp", "clip") and False:
-        return True
+        return -2 ** 31 <= int(t[0]) <= 2 ** 31 - 1 - 128      # truncation fits int32
+    if k.startswith("ipow"):
+        return abs(int(t[0])) ** int(k[4:]) < 2 ** 31          # ORT's integer Pow does not wrap (finding)
     return True
 
 
@@ -409,17 +421,29 @@ def validate_catalogue(chk: Check, rng: common.Rng, gen: dict, thorough: bool):
         for j, t in enumerate(tuples):
             jv = canon(jax_out[j])
             ov = canon(ort_out[j]) if ort_out is not None else "model-rejected"
-            if ov != jv:
+            if ov != jv and ort_out is not None:
                 st["oracle_mismatch"] += 1
                 oracle_mismatch.append({"entry": e.name, "key": e.key, "dtype": e.t, "input": [str(v) for v in t],
                                         "ort": ov, "jax": jv, "kind": classify(e, t)})
+            if not tie_domain(e, t):
+                continue
             lines.append(f"recipe {e.name} fixed " + " ".join(lean_val(v) for v in t))
             meta.append(("recipe", e, t, ov))
             lines.append(f"jax {e.key} {e.t} " + " ".join(lean_val(v) for v in t))
             meta.append(("jax", e, t, jv))
     ans = yield lines
     tie_bad = []
+    def wrap_to(a: str, t: str) -> str:
+        # jaxSem is stated over ℤ; eager JAX wraps (ring operations commute with the wrap)
+        if a.startswith("i:") and t in ("i8", "u8", "i32"):
+            lo, hi = INT_INFO[t]
+            n = (int(a[2:]) - lo) % (hi - lo + 1) + lo
+            return f"i:{n}"
+        return a
+
     for (what, e, t, real), a in zip(meta, ans):
+        if what == "jax":
+            a = wrap_to(a, e.t)
         ok = (a == real) or (what == "recipe" and real == "model-rejected" and a == "err")
         chk.count({"stage": "catalogue-" + what, "entry": e.name, "input": [str(v) for v in t], "real": real,
                    "lean": a}, nontrivial=True, sample_every=2000)
@@ -495,6 +519,8 @@ def validate_tensor(chk: Check, rng: common.Rng, gen: dict):
         name_in = sess.get_inputs()[0].name
         if e.kind in ("arg", "cum"):
             for l in lists:
+                if e.kind == "cum":      # ℤ statement: no-overflow domain
+                    l = [max(-10 ** 6, min(10 ** 6, v)) for v in l]
                 x = np.asarray(l, dtype=np.int32)
                 o = np.asarray(sess.run(None, {name_in: x})[0])
                 j = np.asarray(e.fn(jnp.asarray(x)))
@@ -675,7 +701,9 @@ def load_costs() -> dict:
         return {}
 
 
-def explore(chk: Check, rng: common.Rng, thorough: bool, budget_s: float) -> list[dict]:
+def explore(seed: int, rng: common.Rng, thorough: bool, budget_s: float) -> dict:
+    """Runs in a background thread, concurrently with the Lean build and the catalogue validation
+    (the work itself is done by worker processes).  Touches no shared state."""
     import c01_explore as X
     import subprocess, sys
     t0 = time.time()
@@ -691,23 +719,32 @@ def explore(chk: Check, rng: common.Rng, thorough: bool, budget_s: float) -> lis
         # seeded ~5 % sample of the f32 variants; cases known to be heavy (> 25 s) are left to thorough
         sel = [c for c in pool if rng.chance(0.05) and costs.get(c["id"], 0) <= 25]
     kinds = X.KINDS if thorough else ["own", "half", "mag", "neg"]
-    jobs = [{"index": c["index"], "seed": chk.seed, "kinds": kinds, "symval": 2 + (chk.seed % 2)} for c in sel]
+    jobs = [{"index": c["index"], "seed": seed, "kinds": kinds, "symval": 2 + (seed % 2)} for c in sel]
     nw = min(12, max(2, (os.cpu_count() or 4) - 4)) if thorough else min(8, max(2, (os.cpu_count() or 4) // 2))
     deadline = None if thorough else t0 + budget_s
     res = X.run_pool(jobs, nw, per_case_timeout=600.0 if thorough else 90.0, deadline=deadline)
-    by_status: dict[str, int] = {}
     for c, r_ in zip(sel, res):
         r_.setdefault("id", c["id"])
+    return {"cases": len(cases), "pool": len(pool), "sel": sel, "res": res, "kinds": kinds, "workers": nw,
+            "wall_s": round(time.time() - t0, 1)}
+
+
+def record_exploration(chk: Check, ex: dict, thorough: bool) -> list[dict]:
+    import c01_explore as X
+    sel, res = ex["sel"], ex["res"]
+    by_status: dict[str, int] = {}
+    for c, r_ in zip(sel, res):
         by_status[r_["status"]] = by_status.get(r_["status"], 0) + 1
         draws = r_.get("draws", [])
         chk.count({"stage": "exploration", "testcase": c["id"], "status": r_["status"],
                    "draws": [{k: d.get(k) for k in ("kind", "status", "inputs_digest", "worst_ratio")} for d in draws]},
                   nontrivial=r_["status"] in ("ok", "mismatch") and len(draws) > 1, sample_every=40)
+    done = sum(v for k, v in by_status.items() if k not in ("not_run_deadline", "not_run"))
     chk.info("exploration", {
         "label": "EXPLORATION (not proof): ORT vs eager JAX on adversarial inputs",
-        "registered_testcase_variants": len(cases), "eligible": len(pool), "executed": len(sel),
-        "fraction_executed": round(len(sel) / max(1, len(pool)), 4), "draw_kinds": kinds,
-        "status_counts": by_status, "workers": nw, "wall_s": round(time.time() - t0, 1),
+        "registered_testcase_variants": ex["cases"], "eligible": ex["pool"], "selected": len(sel), "executed": done,
+        "fraction_executed": round(done / max(1, ex["pool"]), 4), "draw_kinds": ex["kinds"],
+        "status_counts": by_status, "workers": ex["workers"], "wall_s": ex["wall_s"],
         "tolerance": "K_D*max(|jax32-jax64|,|jax32(x)-jax32(x(1+-eps))|) + K_E*eps*|ref| + K_N*(rms terms) + K_A*eps "
                      f"with K_D={X.K_D}, K_E={X.K_E}, K_N={X.K_N}, K_A={X.K_A}; integers/bools bit-identical",
     })
@@ -733,6 +770,10 @@ def run(chk: Check) -> None:
     rng = common.Rng(chk.seed)
     thorough = chk.tier == "thorough"
     t_start = time.time()
+    # exploration runs in worker processes, started now, collected at the end
+    from concurrent.futures import ThreadPoolExecutor
+    pool_ex = ThreadPoolExecutor(1)
+    fut = pool_ex.submit(explore, chk.seed, common.Rng(chk.seed ^ 0x5EED), thorough, 1e9 if thorough else 175.0)
     gen = generate()
     chk.log(f"regenerated {len(gen['entries'])} recipes in {time.time() - t_start:.1f} s")
     untranslated = {k: v["unknown"] for k, v in gen["info"].items() if v.get("unknown")}
@@ -834,8 +875,10 @@ def run(chk: Check) -> None:
                        "cases": bind_bad[:20]}, name="bind-returned-correspondence", no_failing_input=True)
 
     # ---- exploration -----------------------------------------------------------------------
-    budget = 1e9 if thorough else max(40.0, 215.0 - (time.time() - t_start))
-    res = explore(chk, rng, thorough, budget)
+    ex = fut.result()
+    pool_ex.shutdown(wait=False)
+    res = record_exploration(chk, ex, thorough)
+    chk.log(f"exploration collected at {time.time() - t_start:.1f} s")
     n_find = 0
     for r in res:
         st = r.get("status")
